@@ -15,7 +15,7 @@ CLAIMS = {
     'C04': ('K+M', KM, 'Bounded: v2: every accepted header within 240 bytes re-parsed at every longer/shorter length and with a different trailer (64 B); v1: two instances of the path summary over buffers agreeing on the header, LMAX = 64 (quick) / 112 (thorough).', 'trusts Kani/CBMC, mirsym models and z3; auto-detection by composition with C06'),
     'C05': ('K+M', KM, 'Bounded: every cut of every accepted header: v2 within 240 bytes; v1 (US-ASCII lines) LMAX = 64 / 112 via "no incomplete path is taken on the prefix"; flags from executing the PartialResult MIR on every outcome.', 'trusts Kani/CBMC, mirsym models and z3; auto-detection by composition with C06'),
     'C06': ('K+M', KM, 'HeaderResult::parse + PartialResult impls executed (MIR) on every pair of results the two dedicated parsers can return (exhaustive over variants, opaque payloads); "never both": v1 accepts only inputs starting with P (M, LMAX = 112), v2 only inputs starting with the signature (K, 240 B).', 'trusts mirsym\'s MIR executor and Kani/CBMC; the dedicated parsers themselves are C01/C02'),
-    'C07': ('K', K, 'Bounded: every command/transport/address value, TLV lists of <= 2 items with literal value lengths, bytes compared with an independent reference encoder and parsed back.', 'trusts Kani/CBMC and the reference encoder in kani/src/c07.rs; value lengths outside the instantiated literals and encodings near 65535 bytes are outside the claim'),
+    'C07': ('K+M', 'bounded model checking with Kani/CBMC (reference encoder + parse back) + SMT-based symbolic execution of the builder MIR for the wire bytes with unbounded value lengths (mirsym)', 'Bounded: K: every command/transport/address value, TLV lists of <= 2 items with literal value lengths, bytes compared with an independent reference encoder and parsed back; M: wire bytes of both constructors (IPv4, Unix with sparse symbolic content) and of one / two writes with value lengths as unbounded integers.', 'trusts Kani/CBMC, the reference encoder in kani/src/c07.rs, mirsym models; TLV lists of more than 2 items outside the claim'),
     'C08': ('M', M, 'All address values (symbolic 32/128-bit addresses and ports): the Display template is decoded from the MIR, the formatted text is constrained symbolically and must be accepted with the same value by all four text entry points (LMAX = 112) and be <= 107 bytes.', 'std\'s Display/FromStr of u16 and IpAddr are contract axioms (canonical decimal; from_str(display(a)) == a; 7..15 / 2..39 bytes); Header Display is covered by C15'),
     'C09': ('K+M', 'bounded model checking with Kani/CBMC (fixed call-kind sequences, all values symbolic, real Vec) + SMT-based symbolic execution of the builder\'s MIR over all call sequences with unbounded payload sizes (mirsym)', 'Bounded: K: 37 (quick) + 125 (thorough) fixed-kind histories of <= 4 calls; M: every sequence of <= 2 (quick) / 3 (thorough) calls over a 9-operation menu after both constructors with payload sizes as unbounded integers (65535/65536 boundaries included), against a ghost history interpreter.', 'trusts Kani/CBMC, mirsym\'s Vec/io::Write models, z3 and the ghost interpreters (kani/src/c09.rs, mirsym/props_b.py)'),
     'C10': ('K+M', 'same two engines as C09 with the whole-output oracle', 'Bounded: same histories as C09; the built bytes must be signature, control bytes, length, address block and the encodings in call order (K: bytewise on the real Vec; M: segment lists with unbounded sizes); batch vs single writes and capacity reservations are call kinds.', 'capacity is not modelled in M (that clause rests on K); same trusted base as C09'),
